@@ -79,6 +79,9 @@ def check(tier, seed, replay=None):
         elif lm and lm.group(1) != 'Ok':
             why = 'the recorded history is not linearizable with respect to the document-store specification (porcupine: %s)' % lm.group(1)
             sig = 'conc:lin'
+        elif 'index ok' not in out and re.search(r'^index (.*)$', out, re.M):
+            why = 'after the concurrent history the index is inconsistent with the store: ' + re.search(r'^index (.*)$', out, re.M).group(1)[:160]
+            sig = 'conc:index'
         elif 'sanity ok' not in out:
             why = 'sanity check failed: %s' % ([l for l in out.splitlines() if l.startswith('sanity')] or ['no output'])[0][:200]
             sig = 'conc:sanity'
@@ -121,6 +124,20 @@ def check(tier, seed, replay=None):
             stats['nested_lock_scenarios'] += 1
         stats['configs'].append({'kind': kind, 'threads': cfg['threads'], 'procs': cfg['procs'], 'seeded': cfg['seeded'], 'quant': cfg['quant'], 'seconds': round(dt, 1)})
         judge(kind, cfg, rc, out, err)
+    if nviol == 0 and broken and ok:
+        # the discipline is broken but nothing failed yet: concentrate on few documents and many goroutines
+        ext = 0
+        for r in range(30 if tier == 'quick' else 200):
+            if nviol or time.time() > t_end + 200:
+                break
+            s_ = rng.randrange(1, 10 ** 6)
+            for kind, binary, cfg, env in (('stress:contended', HARNESS, cfg_of(s_, 16, 400, r % 2, 64, 1, 16, 25, 0), None),
+                                           ('race:contended', RACE, cfg_of(s_ + 1, 8, 150, r % 2, 64, 1, 8, 60, 0), renv)):
+                rc, out, err, dt = run_conc(binary, path, cfg['seed'], cfg['threads'], cfg['ops'], cfg['seeded'], cfg['quant'], cfg['stats'], cfg['procs'], cfg['timeout'], cfg['mix'], env)
+                ext += 1
+                if judge(kind, cfg, rc, out, err):
+                    break
+        chk.notes.append('extended search after the broken obligation: %d further concurrent histories' % ext)
     if nviol == 0 and broken:
         rep = table_report() if any('C10' in b for b in broken) else ''
         chk.violation({'engine': 'proof', 'unproved': broken, 'lock_table_report': rep,
